@@ -94,7 +94,20 @@ def validate(src, prop):
 
 
 def run(names, tier="quick", all_checks=False):
-    assert repo_is_clean(), "/repo not clean"
+    """Checks run against a scratch worktree of /repo's HEAD (VMON_REPO), so /repo itself stays untouched
+    and other work can go on; the worktree is removed afterwards."""
+    wt = "/tmp/vmon-seed-worktree"
+    sh(f"git worktree remove --force {wt}", cwd=REPO)
+    rc, out = sh(f"git worktree add -q --detach {wt} HEAD", cwd=REPO)
+    assert rc == 0, out
+    try:
+        return _run(names, tier, all_checks, wt)
+    finally:
+        sh(f"git worktree remove --force {wt}", cwd=REPO)
+        sh("git worktree prune", cwd=REPO)
+
+
+def _run(names, tier, all_checks, wt):
     res_path = os.path.join(VERIF, "seeded", "RESULTS.json")
     results = json.load(open(res_path)) if os.path.exists(res_path) else {}
     checks = [c["property_id"] for c in json.load(open(os.path.join(VERIF, "MANIFEST.json")))["checks"]]
@@ -105,7 +118,7 @@ def run(names, tier="quick", all_checks=False):
         meta = json.load(open(os.path.join(d, "meta.json")))
         prop = meta["property"]
         try:
-            rc, out = sh(f"git apply {d}/patch.diff", cwd=REPO)
+            rc, out = sh(f"git apply {d}/patch.diff", cwd=wt)
             if rc != 0:
                 print(name, "patch no longer applies:", out[-200:])
                 results.setdefault(name, {})["status"] = "patch does not apply to the current tree"
@@ -114,13 +127,14 @@ def run(names, tier="quick", all_checks=False):
             r = results.setdefault(name, {"property": prop})
             r.pop("status", None)
             for cid in todo:
-                rc, out = sh(f"./check {cid} {tier}", cwd=VERIF, timeout=6 * 3600)
+                rc, out = sh(f"./check {cid} {tier}", cwd=VERIF, timeout=6 * 3600,
+                             env=dict(os.environ, VMON_REPO=wt, VMON_EVIDENCE_DIR=os.path.join(wt, ".vmon-evidence")))
                 mons = sorted(set(re.findall(r"violation monitor=(\S+)", out)))
                 verdict = {0: "missed", 1: "caught", 2: "inconclusive"}.get(rc, f"rc={rc}")
                 r.setdefault(tier, {})[cid] = dict(verdict=verdict, monitors=mons[:6])
                 print(f"{name} {cid} {tier}: {verdict} {mons[:3]}", flush=True)
         finally:
-            clean()
+            sh("git checkout -- . && git clean -fdq -- eyecite tests", cwd=wt)
         json.dump(results, open(res_path, "w"), indent=1, sort_keys=True)
     # restore evidence of the unchanged tree for the checks we disturbed is the caller's job (re-run checks)
     return results
